@@ -55,6 +55,22 @@ func genC19(seed uint64) *core.Plan {
 			total++
 		}
 	}
+	if r.Chance(1, 5) {
+		// a peer that stops draining its socket: writes block in the carrier; then
+		// the receive side ends (read timeout or the peer's FIN), which must
+		// release everybody. No Close from outside while a write is stuck.
+		p.SetKnob("stall", 1)
+		p.SetKnob("cap", r.Pick(16, 256, 4096))
+		p.SetKnob("stallat", r.Intn(30))
+		p.SetKnob("closeat", -1)
+		p.SetKnob("ws", 0)
+		if r.Chance(1, 2) {
+			p.SetKnob("timeout", r.Pick(20, 100))
+		} else {
+			p.SetKnob("timeout", 0)
+			p.SetKnob("peerfin", 1)
+		}
+	}
 	// interleave the items of different senders in plan order
 	for i := len(p.Items) - 1; i > 0; i-- {
 		j := r.Intn(i + 1)
@@ -129,6 +145,8 @@ func runC19(t *testing.T, p *core.Plan) *core.Result {
 	faultOp, faultN := faultOps[p.Knob("faultop", 0)], p.Knob("faultn", 0)
 	ws := p.Knob("ws", 0) == 1
 	var wsBytes []byte
+	stall, stallAt, peerFin := p.Knob("stall", 0) == 1, p.Knob("stallat", 0), p.Knob("peerfin", 0) == 1
+	finSent := false
 
 	// per-sender work lists; every packet is a publish-like packet carrying a tag
 	work := make([][]core.Item, nS+1)
@@ -159,6 +177,9 @@ func runC19(t *testing.T, p *core.Plan) *core.Result {
 	ptxt := core.Bubble(t, p.Seed, p.Yield, func() {
 		link := simnet.NewLink(1)
 		link.A2B.Record = true
+		if stall {
+			link.A2B.Cap = p.Knob("cap", 256)
+		}
 		var calls [5]int
 		var wsA, wsB *websocket.Conn
 		if ws {
@@ -297,6 +318,15 @@ func runC19(t *testing.T, p *core.Plan) *core.Result {
 			if ws && link.A2B.InFlight() > 0 {
 				acts, w = append(acts, "deliver-out"), append(w, 3)
 			}
+			if stall && steps < stallAt && link.A2B.InFlight() > 0 {
+				acts, w = append(acts, "drain"), append(w, 6)
+			}
+			if stall && peerFin && steps >= stallAt && !finSent {
+				acts, w = append(acts, "peerfin"), append(w, 3)
+			}
+			if link.B2A.FinPending() {
+				acts, w = append(acts, "fin"), append(w, 4)
+			}
 			if rt.NextWake() != 0 && (rem == 0 || sched.Chance(1, 3)) {
 				acts, w = append(acts, "timer"), append(w, 3)
 			}
@@ -335,6 +365,22 @@ func runC19(t *testing.T, p *core.Plan) *core.Result {
 					}
 					link.B2A.Deliver(n)
 					log.Ev("deliver b>a %d", n)
+				case "drain":
+					if n := link.A2B.InFlight(); n > 0 {
+						link.A2B.Deliver(1 + sched.Intn(n))
+						log.Ev("peer drains")
+					}
+				case "peerfin":
+					if !finSent {
+						finSent = true
+						link.B2A.CloseWrite()
+						log.Ev("peer half-closes")
+					}
+				case "fin":
+					if link.B2A.FinPending() {
+						link.B2A.DeliverFIN()
+						log.Ev("fin b>a")
+					}
 				case "timer":
 					if b == 0 {
 						core.AdvanceToNextTimer(time.Hour)
@@ -345,6 +391,24 @@ func runC19(t *testing.T, p *core.Plan) *core.Result {
 			}
 		}
 		syncWait()
+		if stall && !isDone(rdone) {
+			// whatever kept the receive side alive (a failed deadline call, no
+			// timeout configured): the stalled peer finally goes away, which ends
+			// the receive side and thereby must release a stuck write
+			if !finSent {
+				finSent = true
+				link.B2A.CloseWrite()
+			}
+			for i := 0; i < 100 && !isDone(rdone); i++ {
+				if n := link.B2A.InFlight(); n > 0 {
+					link.B2A.Deliver(n)
+				} else if link.B2A.FinPending() {
+					link.B2A.DeliverFIN()
+				}
+				syncWait()
+			}
+			log.Ev("peer gone")
+		}
 		if !closed && isDone(rdone) {
 			// the connection already failed on the receive side (error, EOF or
 			// expired read timeout): a flushed send must fail at once
@@ -449,6 +513,12 @@ func runC19(t *testing.T, p *core.Plan) *core.Result {
 		for i, o := range faultOps {
 			if o != "" {
 				res.Count("calls_"+o, int64(calls[i]))
+			}
+		}
+		if stall {
+			res.Count("stalled_peer_runs", 1)
+			if link.A2B.Blocked > 0 {
+				res.Count("writes_blocked_on_full_socket", 1)
 			}
 		}
 		simEnd = core.SimNow()
